@@ -87,6 +87,10 @@ def gen_cases(tier, seed):
             continue
         for s in twins:
             add(pattern, 3, 0.0, wa, step, s)
+    # stamps that differ from a row time in the last bit only (every configuration: the sets are small)
+    for pattern, step, wa in _cfgs(tier):
+        for s in schedx.ulp_family(3):
+            add(pattern, 3, 0.0, wa, step, s)
     # defaults and model variants on the empty and the single-sample schedules
     singles = list(schedx.subsets_upto(3, 1))
     for pattern, step, wa in _cfgs(tier):
@@ -106,7 +110,9 @@ def gen_cases(tier, seed):
             add(pattern, 3, 64.0, wa, step, s)
     # decimal regime: 0.1 s rows, time_step 0.05 / 0.1 / 0.25
     dec_sets = [[], [(5, 'P')], [(6, 'P')], [(6, 'P'), (7, 'V')], [(9, 'V'), (10, 'P'), (11, 'B')],
-                [(1, 'P'), (21, 'V')], [(2, 'P'), (3, 'P'), (4, 'P')]]
+                [(1, 'P'), (21, 'V')], [(2, 'P'), (3, 'P'), (4, 'P')],
+                # one ulp before / after the rows 0.2, 0.30000000000000004, 0.4 (ns = 23 slots per block)
+                [(9 + 46, 'P')], [(13 + 46, 'V')], [(13 + 69, 'P')], [(17 + 46, 'P'), (13 + 46, 'V')], [(13, 'P'), (13 + 46, 'P')]]
     for step in ('d005', 'd01', 'd025'):
         for wa in (True, False):
             for s in dec_sets:
